@@ -15,37 +15,39 @@ theorem gstep_at {s pc} (ch : Bool) (hc : 0 < s.cnt (kind pc)) (hs : (step s pc)
 
 theorem progressK {s} (hi : Inv s) (hr : s.recovers = true) (hg : s.gate = true)
     (hb : 0 < s.cnt .p0 ∨ 0 < s.cnt .p1 ∨ 0 < s.cnt .c0 ∨ 0 < s.cnt .c1 ∨ 0 < s.cnt .r1) :
-    ∃ k, 0 < s.cnt k ∧ ∀ pc, kind pc = k → ∃ s' nx, gstep s pc false = some (s', nx) := by
-  by_cases h1 : 0 < s.cnt .r1
-  · refine ⟨.r1, h1, fun pc hk => ?_⟩
-    cases pc <;> (try (simp [kind] at hk; done))
-    exact gstep_at false h1 (by simp [step, hg])
-  by_cases h0 : 0 < s.cnt .p0
-  · refine ⟨.p0, h0, fun pc hk => ?_⟩
-    cases pc <;> (try (simp [kind] at hk; done))
-    exact gstep_at false h0 (by simp only [step]; split <;> simp)
+    ∃ k, 0 < s.cnt k ∧ ∀ pc, kind pc = k → live s pc → ∃ s' nx, gstep s pc false = some (s', nx) := by
   by_cases hc0 : 0 < s.cnt .c0
-  · refine ⟨.c0, hc0, fun pc hk => ?_⟩
+  · refine ⟨.c0, hc0, fun pc hk _ => ?_⟩
     cases pc <;> (try (simp [kind] at hk; done))
     exact gstep_at false hc0 (by simp [step])
   by_cases hc1 : 0 < s.cnt .c1
-  · refine ⟨.c1, hc1, fun pc hk => ?_⟩
+  · refine ⟨.c1, hc1, fun pc hk _ => ?_⟩
     cases pc <;> (try (simp [kind] at hk; done))
-    exact gstep_at false hc1 (by simp only [step]; split <;> simp)
+    exact gstep_at false hc1 (by simp only [step]; (repeat' split) <;> simp)
+  by_cases h1 : 0 < s.cnt .r1
+  · refine ⟨.r1, h1, fun pc hk hl => ?_⟩
+    cases pc <;> (try (simp [kind] at hk; done))
+    rename_i m
+    exact gstep_at false h1 (r1_enabled hi hg (by omega) (by omega) m hl)
+  by_cases h0 : 0 < s.cnt .p0
+  · refine ⟨.p0, h0, fun pc hk _ => ?_⟩
+    cases pc <;> (try (simp [kind] at hk; done))
+    exact gstep_at false h0 (by simp only [step]; split <;> simp)
   have hp1 : 0 < s.cnt .p1 := by omega
   by_cases hcl : s.chClosed = true
-  · refine ⟨.p1, hp1, fun pc hk => ?_⟩
+  · refine ⟨.p1, hp1, fun pc hk _ => ?_⟩
     cases pc <;> (try (simp [kind] at hk; done))
     exact gstep_at false hp1 (by simp [step, hcl, hr])
   by_cases hroom : room s = true
-  · refine ⟨.p1, hp1, fun pc hk => ?_⟩
+  · refine ⟨.p1, hp1, fun pc hk _ => ?_⟩
     cases pc <;> (try (simp [kind] at hk; done))
     exact gstep_at false hp1 (by simp [step, hcl, hroom])
   have hr0 : 0 < s.cnt .r0 := by
     apply Classical.byContradiction; intro hcon
-    have := hi.consExit (by omega)
-    exact hcl this
-  refine ⟨.r0, hr0, fun pc hk => ?_⟩
+    rcases hi.consExit (by omega) with h | h
+    · exact hcl h
+    · have := (hi.selfCons h).2; omega
+  refine ⟨.r0, hr0, fun pc hk _ => ?_⟩
   cases pc <;> (try (simp [kind] at hk; done))
   cases hbuf : s.buf with
   | nil =>
